@@ -61,7 +61,7 @@ def make_leaf(t, base="g"):
         flat[i] = v
     t._rg = True
     t._leaf = True
-    if t not in c.grad_leaves:
+    if not any(t is x for x in c.grad_leaves):
         c.grad_leaves.append(t)
 
 
@@ -245,6 +245,11 @@ def _grad_of(outputs, inputs, grad_outputs, keep_graph):
                         continue
                     acc.append(d if pg is None else tm.mul(pg[i], d))
             flat_g[j] = tm.add(*acc) if acc else tm.ZERO
+        if not keep_graph:
+            # the result leaves the graph: express it in the original symbols (canonical terms)
+            keep = c.stopgrad
+            for j in range(flat_g.size):
+                flat_g[j] = resolve(flat_g[j], c, keep=keep)
         r = t.SymTensor(g, inp.dtype)
         if keep_graph:
             r._rg = True
